@@ -154,7 +154,8 @@ def demo_c12_types():
     k = [j for j, i in enumerate(d) if i == ["deallocate", ["y"]]][0]
     m = [j for j, i in enumerate(d) if i == ["deallocate", ["y", "v"]]][0]
     d[k], d[m] = d[m], d[k]                                                          # container released before its member
-    out = tlc.judge_batch("TypeRoutines", [good, bad], chunk=50, jobs=1, tags=("BAD", "RAN"))
+    keys = ("paths", "alloc", "deinit")
+    out = tlc.judge_batch("TypeRoutines", [{k: c[k] for k in keys} for c in (good, bad)], chunk=50, jobs=1, tags=("BAD", "RAN"))
     badc = {(t[1], t[2]) for t in out["BAD"]}
     ran0 = {(t[2], t[3]) for t in out["RAN"] if t[1] == 0}
     return (not seen and not warn and len(ran0) == 6 and not [b for b in badc if b[0] == 0]
